@@ -634,3 +634,133 @@ m('c10_market_entry_qty_rounded', ['C10'], 'jesse/strategies/Strategy.py',
   """            if jh.is_price_near(o[1], price_to_compare):
                 self.broker.buy_at_market(o[0])""", """            if jh.is_price_near(o[1], price_to_compare):
                 self.broker.buy_at_market(round(o[0], 2) or o[0])""")
+
+# ---- C16 -----------------------------------------------------------------------------------------
+m('c16_win_rate_over_total', ['C16'], 'jesse/services/metrics.py',
+  "win_rate = len(winning_trades) / (len(losing_trades) + len(winning_trades))", "win_rate = len(winning_trades) / total_completed")
+m('c16_sharpe_252', ['C16'], 'jesse/services/metrics.py',
+  "sharpe = np.nan if len(daily_return) < 2 else sharpe_ratio(daily_return, periods=365).iloc[0]",
+  "sharpe = np.nan if len(daily_return) < 2 else sharpe_ratio(daily_return, periods=252).iloc[0]")
+m('c16_shorts_pct_wrong', ['C16'], 'jesse/services/metrics.py',
+  "shorts_percentage = 100 - longs_percentage", "shorts_percentage = shorts_count / max(total_losing_trades + total_winning_trades, 1) * 100")
+m('c16_daily_off_by_one', ['C16'], 'jesse/modes/backtest_mode.py',
+  """        _execute_market_orders()
+
+        if i != 0 and i % 1440 == 0:
+            save_daily_portfolio_balance()
+
+    _finish_progress_bar(progressbar, run_silently)
+
+    execution_duration = 0
+    if not run_silently:
+        # print executed time for the backtest session
+        finish_time_track = time.time()
+        execution_duration = round(finish_time_track - begin_time_track, 2)
+
+    for r in router.routes:
+        r.strategy._terminate()
+        _execute_market_orders()
+
+    # now that backtest simulation is finished, add finishing balance
+    save_daily_portfolio_balance()
+
+    # set the ending time for the backtest session
+    store.app.ending_time = store.app.time + 60_000
+
+    result = _generate_outputs(
+        candles,
+        generate_tradingview=generate_tradingview,
+        generate_csv=generate_csv,
+        generate_json=generate_json,
+        generate_equity_curve=generate_equity_curve,
+        benchmark=benchmark,
+        generate_hyperparameters=generate_hyperparameters,
+        generate_logs=generate_logs,
+    )
+    result['execution_duration'] = execution_duration
+    return result
+
+
+def _simulation_minutes_length""", """        _execute_market_orders()
+
+        if i != 0 and i % 2880 == 0:
+            save_daily_portfolio_balance()
+
+    _finish_progress_bar(progressbar, run_silently)
+
+    execution_duration = 0
+    if not run_silently:
+        # print executed time for the backtest session
+        finish_time_track = time.time()
+        execution_duration = round(finish_time_track - begin_time_track, 2)
+
+    for r in router.routes:
+        r.strategy._terminate()
+        _execute_market_orders()
+
+    # now that backtest simulation is finished, add finishing balance
+    save_daily_portfolio_balance()
+
+    # set the ending time for the backtest session
+    store.app.ending_time = store.app.time + 60_000
+
+    result = _generate_outputs(
+        candles,
+        generate_tradingview=generate_tradingview,
+        generate_csv=generate_csv,
+        generate_json=generate_json,
+        generate_equity_curve=generate_equity_curve,
+        benchmark=benchmark,
+        generate_hyperparameters=generate_hyperparameters,
+        generate_logs=generate_logs,
+    )
+    result['execution_duration'] = execution_duration
+    return result
+
+
+def _simulation_minutes_length""")
+m('c16_futures_equity_without_upnl', ['C16'], 'jesse/modes/utils.py',
+  "            if pos.is_open:\n                total_balances += pos.pnl", "            if pos.is_open and pos.pnl < 0:\n                total_balances += pos.pnl")
+m('c16_spot_equity_without_reserved', ['C16'], 'jesse/strategies/Strategy.py',
+  "            total_position_values = entry_orders_value + positions_value", "            total_position_values = positions_value")
+m('c16_maxdd_includes_start', ['C16'], 'jesse/services/metrics.py',
+  "    prices = (returns + 1).cumprod()\n    result = (prices / prices.expanding(min_periods=0).max()).min() - 1",
+  "    prices = (returns + 1).cumprod()\n    result = (prices / prices.expanding(min_periods=0).max()).iloc[:-1].min() - 1",
+  note='ignores the last day in the drawdown')
+m('c16_streak_be_continues', ['C16'], 'jesse/services/metrics.py',
+  "    current_streak = np.where(arr >= 0, pos - np.maximum.accumulate(np.where(arr <= 0, pos, 0)),",
+  "    current_streak = np.where(arr >= 0, pos - np.maximum.accumulate(np.where(arr < 0, pos, 0)),")
+m('c16_fee_one_leg', ['C16', 'C06'], 'jesse/models/ClosedTrade.py',
+  "        return trading_fee * self.qty * (self.entry_price + self.exit_price)", "        return trading_fee * self.qty * (self.entry_price + self.entry_price)")
+m('c16_gross_loss_abs', ['C16'], 'jesse/services/metrics.py',
+  "    gross_loss = losing_trades['PNL'].sum()", "    gross_loss = abs(losing_trades['PNL'].sum())")
+m('c16_fast_daily_before_routes', ['C16'], 'jesse/modes/backtest_mode.py',
+  """        _execute_routes(i, current_step)
+
+        # now check to see if there's any MARKET orders waiting to be executed
+        _execute_market_orders()
+
+        if i != 0 and i % 1440 == 0:
+            save_daily_portfolio_balance()""", """        if i != 0 and i % 1440 == 0:
+            save_daily_portfolio_balance()
+
+        _execute_routes(i, current_step)
+
+        # now check to see if there's any MARKET orders waiting to be executed
+        _execute_market_orders()""", note='sample before the strategy step of that chunk (market orders not yet filled)')
+
+# ---- C20 -----------------------------------------------------------------------------------------
+m('c20_gap_filled_with_prev_open', ['C20'], 'jesse/modes/import_candles_mode/__init__.py',
+  "                last_close = candles[-1]['close']", "                last_close = candles[-1]['open']")
+m('c20_loop_without_plus_one', ['C20'], 'jesse/modes/import_candles_mode/__init__.py',
+  "    loop_length = ((end_timestamp - start_timestamp) / 60000) + 1", "    loop_length = ((end_timestamp - start_timestamp) / 60000)")
+m('c20_append_ge', ['C20'], 'jesse/store/state_candles.py',
+  "        elif candle[0] > arr[-1][0]:\n            # in paper mode", "        elif candle[0] >= arr[-1][0]:\n            # in paper mode")
+m('c20_validation_rows_1_2', ['C20'], 'jesse/research/backtest.py',
+  "        if candle_set[1][0] - candle_set[0][0] != 60_000:", "        if candle_set[2][0] - candle_set[1][0] != 60_000:")
+m('c20_leading_gap_uses_close', ['C20'], 'jesse/modes/import_candles_mode/__init__.py',
+  "                    'open': first_candle['open'],\n                    'high': first_candle['open'],", "                    'open': first_candle['close'],\n                    'high': first_candle['open'],")
+m('c20_bulk_new_gt', ['C20'], 'jesse/store/state_candles.py',
+  "        elif candles[0, 0] > arr[-1][0]:\n            arr.append_multiple(candles)", "        elif candles[0, 0] >= arr[-1][0]:\n            arr.append_multiple(candles)")
+m('c20_volume_copied_in_gap', ['C20'], 'jesse/modes/import_candles_mode/__init__.py',
+  "                    'close': last_close,\n                    'volume': 0", "                    'close': last_close,\n                    'volume': candles[-1]['volume'] if len(candles) > 7 else 0")
